@@ -103,7 +103,10 @@ async def request(
             # If we are asked to retry later, do so, and obey the requested backoff.
             if isinstance(e, errors.APITooManyRequestsError):
                 if e.headers and e.headers.get("Retry-After"):
-                    retry_after = math.ceil(float(e.headers["Retry-After"]))  # the new style
+                    try:
+                        retry_after = math.ceil(float(e.headers["Retry-After"]))  # the new style
+                    except ValueError:  # e.g. the HTTP-date form; fall back to the regular backoffs.
+                        retry_after = None
                 elif e.details and e.details.get("retryAfterSeconds"):
                     retry_after = int(e.details["retryAfterSeconds"])  # the old style
                 else:
